@@ -37,7 +37,7 @@ Theorem all_kinds_unique_r5 (hn : list tev) (hg hv : list wev) (hm : list mev) (
    uniq_pos (live_ids_in m (wrun false true hg)) ∧ uniq_pos (live_ids_in m (wrun false true hv)) ∧
    uniq_pos (nids (nents (mmap (mrun ra false rd true hm) m))) ∧
    FxInv (fx_hist true true fl fo)) ∧
-  ∀ c hc, c ∈ classes → uniq_pos (klive (krun c.1.1 c.1.2 c.2 hc)).
+  ∀ c hc, c ∈ classes → uniq_pos (klive (krun c.1.1 c.1.2 c.2 false hc)).
 Proof.
   intros Hp Hc wn. split; [exact (all_kinds_unique hn hg hv hm fl fo ra rd m prog Hp)|].
   intros c hc Hin. unfold ctors_ok in Hc. rewrite forallb_forall in Hc.
